@@ -3,6 +3,8 @@
 cd /verif; . ./env.sh
 tiers=${1:-both}; [ "$tiers" = both ] && tiers="quick thorough"
 bad=0
+# seeds whose patch no longer applies to the current tree would be skipped silently by the self-test: say so here
+for d in seeded/C*/; do git -C /repo apply --check /verif/$d/patch.diff 2>/dev/null || echo "!! seed patch does not apply: $(basename $d)"; done
 for t in $tiers; do
   for p in $(jq -r '.checks[].property_id' MANIFEST.json); do
     out=$(./check.sh $p $t 2>&1); code=$?
